@@ -75,7 +75,7 @@ def run(ctx):
             ctx.report(classify(e, f["mon"]), {"driver": "h-aux c38 " + " ".join(map(str, args)), "event": e})
     ctx.distinct += len(seen)
     for k, v in stats.items():
-        if v == 0:
+        if v == 0 and not ctx.violations:        # a vacuity complaint must not hide reported violations
             raise vlib.ToolError("vacuity: no event of class %s" % k)
     ctx.assumptions += [
         "APY values are small integers (the average is scale free); sums stay below 2^31; u128 saturation of the average is "
